@@ -62,7 +62,8 @@ def check(ctx):
     for v in (["C10_A", "C10_B"] if ctx.quick else ["C10_A", "C10_B", "C10_C", "C10_D"]):
         m1.holds(v, "C10_quick.cfg", {"C10_A": v})
     if not ctx.quick:
-        m1.holds("C10_B MaxEv 4", "C10_quick.cfg", {"C10_A": "C10_B", "MaxEv = 3": "MaxEv = 4"}, timeout=3000)
+        m1.holds("C10_B, 5 inputs", "C10_quick.cfg", {"C10_A": "C10_B", "MaxEv = 3": "MaxEv = 5"}, timeout=3000)
+        m1.holds("C10_A, 5 inputs", "C10_quick.cfg", {"MaxEv = 3": "MaxEv = 5"}, timeout=3000)
     for sw in ["SwD4", "SwD5", "SwD6"]:
         m1.caught(sw, "C10_quick.cfg")
     traces = anngen.run(ctx.seed, ctx.pick(360, 6000), ctx.pick(7, 10), INSTS, list("ABCDEF"), tag="c10")
